@@ -488,22 +488,23 @@ class C04Engine(Engine):
             ls = "direct"
         else:
             ls = ["direct", "amg", "cg"][(i // 6) % 3] if i < 36 else r.choice(["direct", "direct", "amg", "cg"])
+        big = tier == "thorough"
         dim = r.choice([1, 2, 2, 2, 3])
         if dim == 1:
-            shape = [r.randint(2, 7)]
+            shape = [r.randint(2, 12 if big else 7)]
         elif dim == 2:
-            shape = [r.randint(1, 5), r.randint(1, 5)]
+            shape = [r.randint(1, 7 if big else 5), r.randint(1, 7 if big else 5)]
             if shape[0] * shape[1] < 2:
                 shape[r.randint(0, 1)] = 3
         else:
-            shape = [r.randint(1, 3) for _ in range(3)]
+            shape = [r.randint(1, 4 if big else 3) for _ in range(3)]
             if np.prod(shape) < 2:
                 shape[r.randint(0, 2)] = 2
         cfg = {
             "method": method, "formulation": formulation, "linear_solver": ls,
             "shape": shape, "voxel_size": [r.choice([0.25, 0.5, 1.0, 1.0, 1.5, 2.0]) for _ in range(dim)],
             "l1_mode": r.choice(sorted(L1)), "mobility_mode": r.choice(MOB),
-            "num_iter": r.randint(1, 7),
+            "num_iter": r.randint(1, 10 if big else 7),
             "aa_depth": r.choice([0, 0, 1, 2, 3]), "aa_restart": r.choice([None, None, 2, 3, 4]),
             "pair": {"kind": r.choice(["dense", "dense", "compact", "single"]), "id": r.randint(0, 9999)},
         }
